@@ -50,11 +50,30 @@ def rand_opt(rng, name):
     return {}
 
 
+TPL = ("TPLGaussian", "TPLExponential", "TPLStable")     # classes with var = var_raw * var_factor(), var_factor != 1
+
+
 def rand_cfg(rng, name, dim, mode_choices=(1, 2, 7, 64, 200, 1000)):
-    return dict(cls=name, dim=dim, var=float(np.exp(rng.uniform(np.log(0.1), np.log(10.0)))),
-                len_scale=float(np.exp(rng.uniform(np.log(0.2), np.log(20.0)))),
-                mean_u=float(rng.choice([-1.0, 1.0]) * np.exp(rng.uniform(np.log(0.1), np.log(5.0)))),
-                mode_no=int(rng.choice(mode_choices)), seed=int(rng.integers(0, 2 ** 31 - 1)), opt=rand_opt(rng, name))
+    cfg = dict(cls=name, dim=dim, var=float(np.exp(rng.uniform(np.log(0.1), np.log(10.0)))),
+               len_scale=float(np.exp(rng.uniform(np.log(0.2), np.log(20.0)))),
+               mean_u=float(rng.choice([-1.0, 1.0]) * np.exp(rng.uniform(np.log(0.1), np.log(5.0)))),
+               mode_no=int(rng.choice(mode_choices)), seed=int(rng.integers(0, 2 ** 31 - 1)), opt=rand_opt(rng, name))
+    if name in TPL:
+        # truncated power laws: hurst, lower cut-off and length scale such that var_factor() is clearly != 1
+        # (var_raw and var then differ by at least a factor 2: the variance the field must carry is model.var)
+        for _ in range(200):
+            opt = {"hurst": float(rng.uniform(0.15, 0.85))}
+            if rng.random() < 0.5:
+                opt["len_low"] = float(rng.uniform(0.0, 2.0) * cfg["len_scale"])
+            if name == "TPLStable" and rng.random() < 0.5:
+                opt["alpha"] = float(rng.uniform(0.6, 2.0))
+            cfg["opt"] = opt
+            vf = float(make_model(name, dim, cfg["var"], cfg["len_scale"], 0.0, opt).var_factor())
+            if abs(math.log(vf)) >= math.log(2.0):
+                break
+            cfg["len_scale"] = float(np.exp(rng.uniform(np.log(0.2), np.log(20.0))))
+        cfg["var_factor"] = vf
+    return cfg
 
 
 def make_srf(cfg, nugget=0.0):
@@ -159,10 +178,12 @@ def corr_wrapper(ctx, rng, drv):
     """IncomprRandMeth.__call__ (mean velocity, amplitude, nugget) and SRF(generator='VectorField') vs the model"""
     from gstools.field.generator import IncomprRandMeth
     from gstools.field import summator as S
-    ncfg = 60 if ctx.tier == "thorough" else 16
+    ncfg = 60 if ctx.tier == "thorough" else 18
     bitwise = total = 0
+    fixed = ["Gaussian", "Exponential", "Matern", "TPLGaussian", "TPLExponential", "TPLStable"]
+    followups = []
     for c in range(ncfg):
-        name = CLASSES[int(rng.integers(len(CLASSES)))] if c >= 4 else ["Gaussian", "Exponential", "Matern", "TPLStable"][c]
+        name = CLASSES[int(rng.integers(len(CLASSES)))] if c >= len(fixed) else fixed[c]
         dim = int(rng.choice([2, 3]))
         cfg = rand_cfg(rng, name, dim, mode_choices=(1, 2, 7, 33, 64))
         nug_var = float(rng.choice([0.0, 0.0, 0.3, 2.5]))
@@ -174,12 +195,14 @@ def corr_wrapper(ctx, rng, drv):
             g = IncomprRandMeth(model, mean_velocity=cfg["mean_u"], mode_no=cfg["mode_no"], seed=cfg["seed"])
             ks, z1, z2 = (np.ascontiguousarray(np.asarray(a, dtype=float)) for a in (g._cov_sample, g._z_1, g._z_2))
             N = ("z", cfg["mode_no"])
-            amp = cfg["mean_u"] * math.sqrt(cfg["var"] / cfg["mode_no"])
+            var = float(model.var)            # the variance of the model as the implementation reports it (= var_raw * var_factor())
+            case["model_var"] = C.fhex(var); case["model_var_raw"] = C.fhex(float(model.var_raw))
+            amp = cfg["mean_u"] * math.sqrt(var / cfg["mode_no"])
             sm = np.asarray(S.summate_incompr(ks, z1, z2, pos))
             # (a) no nugget requested
             out0 = np.asarray(g(pos, add_nugget=False))
             zero = np.zeros((dim, npts))
-            mod0 = drv.call("generate", cfg["mean_u"], cfg["var"], N, ks, z1, z2, pos, zero)
+            mod0 = drv.call("generate", cfg["mean_u"], var, N, ks, z1, z2, pos, zero)
             # (b) nugget: replay the generator's random stream
             mst = g._rng._master_rng._master_rng_fct        # RNG.random opens a new stream seeded by the master
             st = mst.get_state()
@@ -189,11 +212,11 @@ def corr_wrapper(ctx, rng, drv):
                 nug = np.sqrt(nug_var) * g._rng.random.normal(size=(dim, npts))
             else:
                 nug = zero
-            mod1 = drv.call("generate", cfg["mean_u"], cfg["var"], N, ks, z1, z2, pos, nug)
-            mod1b = drv.call("call", cfg["mean_u"], cfg["var"], N, sm, nug)
+            mod1 = drv.call("generate", cfg["mean_u"], var, N, ks, z1, z2, pos, nug)
+            mod1b = drv.call("call", cfg["mean_u"], var, N, sm, nug)
             # (c) the field function used by the theorems, point by point
             i = int(rng.integers(npts)); d = int(rng.integers(dim))
-            v = drv.call("velocity", cfg["mean_u"], cfg["var"], N, ks, z1, z2, np.ascontiguousarray(pos[:, i]), ("n", d))
+            v = drv.call("velocity", cfg["mean_u"], var, N, ks, z1, z2, np.ascontiguousarray(pos[:, i]), ("n", d))
             # (d) through SRF
             srf = make_srf(cfg, nug_var)
             f = np.asarray(srf(tuple(pos), mesh_type="unstructured"))
@@ -217,6 +240,7 @@ def corr_wrapper(ctx, rng, drv):
                 ctx.violation("correspondence: %s vs model" % what,
                               "generator wrapper (mean velocity, amplitude sqrt(var/mode_no), nugget) differs from its model",
                               dict(case, impl=hexarr(a), model=hexarr(b)), key="wrapper:model-vs-impl", no_input=True)
+                followups.append(cfg)
                 break
             bitwise += int(same_bits(a, b))
         if abs(v - out0[d, i]) > wrapper_tol(cfg["mean_u"], amp, sm, zero)[d, i]:
@@ -227,6 +251,20 @@ def corr_wrapper(ctx, rng, drv):
             ctx.violation("correspondence: SRF generator modes", "SRF(generator='VectorField', seed=s) and "
                           "IncomprRandMeth(seed=s) drew different modes", case, key="wrapper:srf-modes", no_input=True)
     ctx.notes.append("wrapper correspondence: %d comparisons within 8 eps * sum|terms|, %d of them bitwise" % (total, bitwise))
+    # a disagreement with the model of __call__ is followed by the property probes on that very configuration (divergence,
+    # ensemble mean and variance split against mean_u^2 * model.var * q_d): a failing input if the property is broken there
+    seen = set()
+    for cfg in followups:
+        if (cfg["cls"], cfg["dim"]) in seen or len(seen) >= 3:
+            continue
+        seen.add((cfg["cls"], cfg["dim"]))
+        cfg2 = dict(cfg, mode_no=64)
+        x = np.ascontiguousarray(rng.uniform(-10, 10, size=(cfg["dim"], 6)) * cfg["len_scale"])
+        run_divergence(ctx, cfg2, x)
+        M = 120 if cfg["cls"] == "TPLStable" else 300
+        xs = np.ascontiguousarray(rng.uniform(-50, 50, size=(cfg["dim"], 24)) * cfg["len_scale"])
+        run_ensemble(ctx, cfg2, M, rng.choice(2 ** 31 - 1, size=M, replace=False), xs)
+        ctx.notes.append("wrapper disagreement on %s dim %d followed by divergence + ensemble probes on that configuration" % (cfg["cls"], cfg["dim"]))
 
 
 # ----------------------------------------------------------------------------------------------- probes
@@ -243,9 +281,16 @@ def divergence_budget(srf, cfg, x):
     dim, n = x.shape
     ks, z1, z2 = modes_of(srf)
     N = ks.shape[1]
-    amp = abs(cfg["mean_u"]) * math.sqrt(cfg["var"] / N)
-    k2 = (ks ** 2).sum(0)
+    amp = abs(cfg["mean_u"]) * math.sqrt(float(srf.model.var) / N)
     e1 = np.zeros(dim); e1[0] = 1.0
+    # the budget must hold for whatever scalar amplitude the implementation really applies to the kernel sum:
+    # measure it at the points and take the larger one (so that a wrong amplitude alone is never reported as divergence)
+    from gstools.field import summator as S
+    sm = np.asarray(S.summate_incompr(ks, z1, z2, np.ascontiguousarray(x)))
+    u0 = np.asarray(srf(tuple(x), mesh_type="unstructured")) - cfg["mean_u"] * e1[:, None]
+    if np.isfinite(sm).all() and (sm ** 2).sum() > 0:
+        amp = 1.01 * max(amp, math.sqrt(float((u0 ** 2).sum() / (sm ** 2).sum())))
+    k2 = (ks ** 2).sum(0)
     P = np.abs(e1[:, None] - ks * ks[0] / k2) + 4 * EPS     # |P_dj| incl. its own rounding error
     hyp = np.hypot(z1, z2)                                   # |z1 cos + z2 sin| <= hyp
     A = amp * P * hyp                                        # (dim, N)
@@ -360,7 +405,7 @@ def ensemble_case(ctx, cfg, M, seeds, npts, x):
         u = np.asarray(g(x))
         ms[s] = u.mean(1)
         vs[s] = ((u - mu[:, None]) ** 2).mean(1)
-    return ms, vs
+    return ms, vs, float(model.var), float(model.var_raw)
 
 
 def run_ensemble(ctx, cfg, M, seeds, x):
@@ -369,16 +414,19 @@ def run_ensemble(ctx, cfg, M, seeds, x):
     try:
         with warnings.catch_warnings():
             warnings.simplefilter("ignore")
-            ms, vs = ensemble_case(ctx, cfg, M, seeds, x.shape[1], x)
+            ms, vs, model_var, model_var_raw = ensemble_case(ctx, cfg, M, seeds, x.shape[1], x)
     except Exception as e:
         ctx.violation("probe: ensemble", "unexpected exception %r" % (e,), case, key="ens:exception")
         return
     mu = np.zeros(dim); mu[0] = cfg["mean_u"]
-    target = cfg["mean_u"] ** 2 * cfg["var"] * np.array(SPLIT[dim])
+    # the variance the field has to carry is the model's variance model.var (= var_raw * var_factor(), not var_raw)
+    target = cfg["mean_u"] ** 2 * model_var * np.array(SPLIT[dim])
+    case = dict(case, model_var=model_var, model_var_raw=model_var_raw)
     m_est, m_se = ms.mean(0), ms.std(0, ddof=1) / math.sqrt(M)
     v_est, v_se = vs.mean(0), vs.std(0, ddof=1) / math.sqrt(M)
     ctx.count(("ensemble", cfg["cls"], dim, cfg["mode_no"]), n=M,
-              hist=dict(stage="ensemble-probe", cls=cfg["cls"], dim=dim, mode_no=cfg["mode_no"]))
+              hist=dict(stage="ensemble-probe", cls=cfg["cls"], dim=dim, mode_no=cfg["mode_no"],
+                        var_factor=("%.2g" % (model_var / model_var_raw)) if cfg["cls"] in TPL else "1"))
     ctx.sample(dict(stage="ensemble-probe", cfg=cfg, seeds=M, mean=[float(v) for v in m_est], mean_se=[float(v) for v in m_se],
                     var_over_target=[float(v) for v in v_est / target], var_se_over_target=[float(v) for v in v_se / target]), limit=9)
     for d in range(dim):
@@ -389,7 +437,7 @@ def run_ensemble(ctx, cfg, M, seeds, x):
                           key="ens-mean:%s:dim%d" % (cfg["cls"], dim))
         if abs(v_est[d] - target[d]) > 6 * v_se[d]:
             ctx.violation("probe: component variance split",
-                          "component %d: variance over %d seeds %.5g, expected mean_u^2 var * %.4f = %.5g, standard error %.3g (%.1f SE)"
+                          "component %d: variance over %d seeds %.5g, expected mean_u^2 * model.var * %.4f = %.5g, standard error %.3g (%.1f SE)"
                           % (d, M, v_est[d], SPLIT[dim][d], target[d], v_se[d], abs(v_est[d] - target[d]) / v_se[d]),
                           dict(case, component=d, estimate=float(v_est[d]), expected=float(target[d]), se=float(v_se[d])),
                           key="ens-var:%s:dim%d" % (cfg["cls"], dim))
@@ -403,9 +451,13 @@ def probe_ensemble(ctx, rng):
         plan[0] = ("Gaussian", 2, 3000)
         plan[2] = ("Exponential", 2, 3000)
     else:
-        others = [c for c in CLASSES if c not in ("Gaussian", "Exponential", "TPLStable")]
+        # Gaussian / Exponential always; the other classes rotate with VERIF_SEED (every class is reached over the seeds,
+        # every class on every run in the thorough tier); one truncated power law (var_factor != 1) on every run
+        others = [c for c in CLASSES if c not in ("Gaussian", "Exponential") + TPL]
         pick = others[int(rng.integers(len(others)))]
-        plan = [("Gaussian", 2, 1200), ("Exponential", 2, 1200), ("Gaussian", 3, 200), (pick, int(rng.choice([2, 3])), 150)]
+        tpl = TPL[int(rng.integers(len(TPL)))]
+        plan = [("Gaussian", 2, 1000), ("Exponential", 2, 1000), ("Gaussian", 3, 100), (pick, int(rng.choice([2, 3])), 120),
+                (tpl, int(rng.choice([2, 3])), 50 if tpl == "TPLStable" else 120)]
     worst = 0.0
     for name, dim, M in plan:
         cfg = rand_cfg(rng, name, dim, mode_choices=(16, 64, 100))
